@@ -147,3 +147,18 @@ fn confirm(left: &str, right: &str, w: &str, left_accepts: bool) -> Result<(), S
         Err(format!("engine says left={ml} right={mr}, oracle said left={left_accepts}"))
     }
 }
+
+/// Reference leftmost-first search (PikeVM, no prefilters or literal optimisations): the span of the
+/// leftmost-first match of `pattern` in `haystack`. Used to arbitrate when the optimised engine
+/// behind `regex::Regex` returns a span that its own semantics do not allow (regex 1.10.6 returns
+/// 3..4 for `\daa|a` on FULLWIDTH DIGIT ONE + "aa").
+pub fn reference_find(pattern: &str, haystack: &str) -> Option<Option<(usize, usize)>> {
+    use regex_automata::nfa::thompson::pikevm::PikeVM;
+    let vm = PikeVM::builder()
+        .syntax(syntax::Config::new().unicode(true).utf8(true).nest_limit(5000))
+        .thompson(regex_automata::nfa::thompson::Config::new().nfa_size_limit(Some(ORACLE_LIMIT)))
+        .build(pattern)
+        .ok()?;
+    let mut cache = vm.create_cache();
+    Some(vm.find(&mut cache, haystack).map(|m| (m.start(), m.end())))
+}
